@@ -641,6 +641,12 @@ def rebuild(t, mapping, memo=None):
             r = T.ite(go(a[0]), go(a[1]), go(a[2]))
         elif op == "ref":
             r = Term("ref", go(a[0]), go(a[1]))
+        elif op == "classsel":
+            c_ = go(a[0])
+            if c_.op == "agg" and c_.args[3] in ("ELF32", "ELF64"):
+                r = go(a[1] if c_.args[3] == "ELF32" else a[2])
+            else:
+                r = Term("classsel", c_, go(a[1]), go(a[2]))
         else:
             r = Term(op, *[go(y) for y in a])
         memo[x] = r
